@@ -289,6 +289,67 @@ pub mod dpr {
         }
     }
 
+    /// A stand-alone discontiguous `MonotonePageResource` over the private `Map32` of a [`Dpr`]: it
+    /// shares the pool of chunks with the `CommonPageResource`s of that `Dpr`. Only the cursor, the
+    /// accounting and the VM map are touched; no memory is mapped. Must be dropped before the `Dpr`
+    /// it was created from.
+    pub struct Mono<VM: crate::vm::VMBinding> {
+        pr: crate::util::heap::MonotonePageResource<VM>,
+        desc: crate::util::heap::space_descriptor::SpaceDescriptor,
+    }
+
+    impl Dpr {
+        /// `MonotonePageResource::new_discontiguous(map)` with the space descriptor `raw_descriptor`.
+        pub fn new_mono<VM: crate::vm::VMBinding>(&self, raw_descriptor: usize) -> Mono<VM> {
+            // The caller drops the `Mono` before this `Dpr` (and so before `map`).
+            let r: &'static Map32 = unsafe { &*(&*self.map as *const Map32) };
+            Mono {
+                pr: crate::util::heap::MonotonePageResource::new_discontiguous(r),
+                desc: super::desc::from_raw(raw_descriptor),
+            }
+        }
+    }
+
+    impl<VM: crate::vm::VMBinding> Mono<VM> {
+        /// What `Space::acquire` does with its page resource: `reserve_pages(pages)`, then
+        /// `get_new_pages(descriptor, reserved, pages, tls)`; on failure `clear_request(reserved)`.
+        /// `Some((start, pages, new_chunk))` for a grant.
+        pub fn acquire(&self, pages: usize) -> Option<(Address, usize, bool)> {
+            use crate::util::heap::PageResource;
+            let reserved = self.pr.reserve_pages(pages);
+            match self.pr.get_new_pages(self.desc, reserved, pages, crate::util::opaque_pointer::VMThread::UNINITIALIZED) {
+                Ok(r) => Some((r.start, r.pages, r.new_chunk)),
+                Err(_) => {
+                    self.pr.clear_request(reserved);
+                    None
+                }
+            }
+        }
+        /// `MonotonePageResource::reset()` (what `CopySpace::release` calls).
+        pub fn reset(&self) {
+            unsafe { self.pr.reset() }
+        }
+        /// `(reserved_pages, committed_pages)`.
+        pub fn counters(&self) -> (usize, usize) {
+            use crate::util::heap::PageResource;
+            (self.pr.reserved_pages(), self.pr.committed_pages())
+        }
+        /// `(cursor, sentinel, current_chunk)`.
+        pub fn fields(&self) -> (Address, Address, Address) {
+            self.pr.verif_sync_fields()
+        }
+        /// `CommonPageResource::get_head_discontiguous_region()` of this page resource.
+        pub fn head(&self) -> Address {
+            use crate::util::heap::PageResource;
+            self.pr.common().get_head_discontiguous_region()
+        }
+        /// `get_available_physical_pages()`.
+        pub fn available_physical_pages(&self) -> usize {
+            use crate::util::heap::PageResource;
+            self.pr.get_available_physical_pages()
+        }
+    }
+
     /// A stand-in for a space in the SFT map: only its name is ever asked.
     struct NamedSft(&'static str);
 
